@@ -143,11 +143,25 @@ static uint8_t *galloc(size_t len, int al, int tail, void **map, size_t *maplen)
 	return m + (pages - 1) * 4096 - e - len;
 }
 
+/* the first checksum of the process, asked for by an initialiser that runs before every default-priority constructor (a C++ static
+ * object, another library's constructor): the dispatch between the two implementations must already work then */
+static uint32_t early_crc;
+static int early_done;
+__attribute__((constructor(101))) static void early_user(void) {
+	early_crc = mtbl_crc32c((const uint8_t *)"123456789", 9);
+	early_done = 1;
+}
+
 static int do_crc(const char *out) {
 	FILE *f = fopen(out, "w");
 	if (!f) return 2;
 	int sse = my_crc32c_sse42_supported();
 	static uint8_t big[4096 + 16];
+	if (!early_done || early_crc != ref_crc((const uint8_t *)"123456789", 9)) {
+		printf("MISMATCH first checksum of the process (asked for before main): got %08x\n", early_crc);
+		fclose(f);
+		return 1;
+	}
 	for (int s = 0; s < 6; s++) {
 		fprintf(f, "{\"e\":\"Stream\",\"s\":%d,\"sse42\":%s}\n", s, sse ? "true" : "false");
 		for (int len = 0; len <= stream_len[s]; len++) {
